@@ -66,6 +66,9 @@ pub enum Tx {
     Disconnect,
     /// raw frame handed to the broker decoder as is
     Raw(Vec<u8>),
+    /// harness-only marker (never encoded): the packet before it makes the broker close
+    /// the connection, whatever follows in the same batch is ignored
+    CloseMark,
 }
 
 /// broker -> client, as decoded by the client library
@@ -150,6 +153,9 @@ pub fn tx_bytes(tx: &Tx, v5: bool) -> Result<BytesMut, String> {
         buf.extend_from_slice(b);
         return Ok(buf);
     }
+    if let Tx::CloseMark = tx {
+        return Err("marker".into());
+    }
     if !v5 {
         let p = match tx {
             Tx::Publish {
@@ -188,7 +194,7 @@ pub fn tx_bytes(tx: &Tx, v5: bool) -> Result<BytesMut, String> {
             }
             Tx::PingReq => c4::Packet::PingReq,
             Tx::Disconnect => c4::Packet::Disconnect,
-            Tx::Raw(_) => unreachable!(),
+            Tx::Raw(_) | Tx::CloseMark => unreachable!(),
         };
         p.write(&mut buf, usize::MAX).map_err(|e| format!("{e:?}"))?;
     } else {
@@ -244,7 +250,7 @@ pub fn tx_bytes(tx: &Tx, v5: bool) -> Result<BytesMut, String> {
             Tx::Disconnect => c5::Packet::Disconnect(c5::Disconnect::new(
                 c5::DisconnectReasonCode::NormalDisconnection,
             )),
-            Tx::Raw(_) => unreachable!(),
+            Tx::Raw(_) | Tx::CloseMark => unreachable!(),
         };
         p.write(&mut buf, None).map_err(|e| format!("{e:?}"))?;
     }
@@ -263,7 +269,11 @@ pub fn broker_decode(buf: &mut BytesMut, v5: bool) -> Result<bp::Packet, bp::Err
 /// client encoder -> broker decoder
 pub fn tx_to_broker(tx: &Tx, v5: bool) -> Result<bp::Packet, String> {
     let mut buf = tx_bytes(tx, v5)?;
-    broker_decode(&mut buf, v5).map_err(|e| format!("broker decoder: {e:?}"))
+    match crate::vcore::catch(|| broker_decode(&mut buf, v5)) {
+        Ok(r) => r.map_err(|e| format!("broker decoder: {e:?}")),
+        // decoder totality is property C05's business; here the connection task just dies
+        Err(p) => Err(format!("broker decoder panicked: {p}")),
+    }
 }
 
 pub enum Out {
